@@ -135,11 +135,17 @@ def stepFails (pre : State) (op : Op) (accepted : Bool) (post : State) : List (S
        let tax := pre.params.pcfAmt * pre.params.tax / D
        let feeMvs : List Mv := if created then
            [.xfer sender fcAddr pre.params.pcfDenom tax, .burn sender pre.params.pcfDenom (pre.params.pcfAmt - tax)] else []
+       -- the fee clause presupposes a valid tax rate (`Params.Validate`: below 1) and a creation fee that
+       -- is not denominated in the liquidity token being created (its burn would be indistinguishable from
+       -- the mint in the supply delta); outside that the ledger is not judged
+       let judged := decide (pre.params.tax ≤ D) && !(created && pre.params.pcfDenom == lptDenom n)
        check (decide ((t : Int) ≤ maxA)) "max-deposit" ++
-       check (decide (minL ≤ (m : Int))) "min-liquidity" ++
-       check (ledgerB pre.bank post.bank
-         ([.xfer sender (poolAddr n) pre.std dS.toNat, .xfer sender (poolAddr n) cp t, .mint sender (lptDenom n) m] ++ feeMvs))
-         "add-ledger")
+       (if judged then
+          check (decide (minL ≤ (m : Int))) "min-liquidity" ++
+          check (ledgerB pre.bank post.bank
+            ([.xfer sender (poolAddr n) pre.std dS.toNat, .xfer sender (poolAddr n) cp t, .mint sender (lptDenom n) m] ++ feeMvs))
+            "add-ledger"
+        else []))
   | .add1 sender cp tokD a minL dl =>
     check (inTimeB pre.now dl) "deadline" ++
     (match AMap.get? pre.pools cp with
